@@ -2,8 +2,9 @@ From Physt Require Import Fill OrderQc SweepProofs Calc1DProofs FindProofs Index
 
 (** an operation never enters a NaN through single fill (the recorded finding F19 lives there) *)
 Definition is_fin (x : xnum) : bool := match x with Fin _ => true | _ => false end.
+(** no single fill() enters an infinite coordinate (rows with a NaN are skipped, whatever else they contain) *)
 Definition nan_free (o : fop) : bool :=
-  match o with Fill v _ => forallb is_fin v | FillN _ _ _ => true end.
+  match o with Fill v _ => forallb is_fin v || existsb is_nan v | FillN _ _ _ => true end.
 Lemma all_fin_no_nan v : forallb is_fin v = true -> existsb is_nan v = false.
 Proof. induction v as [|x v IH]; simpl; auto. destruct x; simpl; auto; discriminate. Qed.
 
@@ -39,7 +40,9 @@ Qed.
 Theorem step_coded_is_spec s o : axes_ok (s_axes s) -> nan_free o = true -> step_coded s o = step_spec s o.
 Proof.
   intros Hax Hnf. unfold step_coded, step_spec, step. destruct o as [v w|rows ws wok].
-  - simpl in Hnf. rewrite (all_fin_no_nan v Hnf). cbn [andb].
+  - simpl in Hnf. destruct (existsb is_nan v) eqn:En.
+    { destruct (negb (Nat.eqb (length v) (length (s_axes s)))); reflexivity. }
+    rewrite orb_false_r in Hnf. cbn [andb].
     destruct (negb (Nat.eqb (length v) (length (s_axes s)))) eqn:El; auto.
     destruct (is1d s) eqn:E1.
     + destruct (axes_ok_nth s Hax E1) as [Hr Hne]. unfold fill_1d.
